@@ -128,19 +128,25 @@ def run(tier, seed, ck=None):
             goals.append(('C13.csel%d.frame' % a, 'operands unchanged',
                           '(assert (not (and %s)))' % ' '.join('(= n%d n%d) (= n%d n%d)' % (o['U0']['f'][i], o['U1']['f'][i], o['V0']['f'][i], o['V1']['f'][i]) for i in range(4))))
         ans = ck.prove_batch(pre, goals, timeout=30)
-        if 'sat' in ans and a == 0:
+        if 'sat' in ans:
             i = ans.index('sat')
-            names = cn + [low.name(x) for x in o['U0']['f'] + o['V0']['f']]
-            m, _ = smt.get_model(pre + '\n(assert (bvult %s %s))(assert (bvult %s %s))\n' % (
-                concat_limbs([low.name(x) for x in o['U0']['f']]), bvconst256(N), concat_limbs([low.name(x) for x in o['V0']['f']]), bvconst256(N)) + goals[i][2], names)
+            rn, _ = ensure_vars(r, low, ['r%d' % k for k in range(4)])
+            un, _ = ensure_vars(r, low, ['u%d' % k for k in range(4)])
+            vn, _ = ensure_vars(r, low, ['v%d' % k for k in range(4)])
+            canon = ''.join('(assert (bvult %s %s))' % (concat_limbs(x), bvconst256(N)) for x in (rn, un, vn))
+            m, _ = smt.get_model(low.all() + '\n' + asserts(p['pc']) + '\n' + canon + '\n' + goals[i][2], cn + rn + un + vn)
+            cases = []
             if m:
-                U = unlimbs([m[low.name(x)] for x in o['U0']['f']]); V = unlimbs([m[low.name(x)] for x in o['V0']['f']])
-                path = ck.save_replay({'property': 'C13', 'cases': [{'kind': 'cselect', 'a': '%064x' % real_from(U), 'b': '%064x' % real_from(V), 'c': '%064x' % 5, 'u': m[cn[0]]}]})
-                ok, out = core.go_test(path)
-                if not ok and 'MISMATCH' in out:
-                    ck.violation('cselect', 'CSelect wrong for condition word %d: %s' % (m[cn[0]], [l.strip() for l in out.splitlines() if 'MISMATCH' in l][:1]), path)
-                else:
-                    ck.inconclusive.append('CSelect counterexample did not reproduce')
+                val = lambda ns: '%064x' % real_from(unlimbs([m[x] for x in ns]))
+                cases.append({'kind': 'cselect', 'a': val(un), 'b': val(vn), 'c': val(rn), 'u': m[cn[0]], 'n': a})
+            for cw in (1, 2, 2**63, 2**64 - 1, 0):
+                cases.append({'kind': 'cselect', 'a': '%064x' % 3, 'b': '%064x' % (N - 4), 'c': '%064x' % 9, 'u': cw, 'n': a})
+            path = ck.save_replay({'property': 'C13', 'cases': cases})
+            ok, out = core.go_test(path)
+            if not ok and 'MISMATCH' in out:
+                ck.violation('cselect', 'CSelect wrong (aliasing %d): %s' % (a, [l.strip() for l in out.splitlines() if 'MISMATCH' in l][:1]), path)
+            else:
+                ck.inconclusive.append('CSelect counterexample (aliasing %d) did not reproduce' % a)
     for w in range(3):
         r = R_['cselnil%d' % w]
         ok = len(r.paths) == 1 and r.paths[0]['end'] == 'return'
